@@ -108,7 +108,8 @@ def run_set(desc, seed, res):
             res.hit("set_checked")
             wit = {"sequence": "SetDT8ColourValueTc", "mirek": mirek, "destination": kind}
             try:
-                ret = bus.run_sequence(SetDT8ColourValueTc(dest, mirek))
+                # both call forms of the public signature
+                ret = bus.run_sequence(SetDT8ColourValueTc(dest, mirek) if mi % 2 else SetDT8ColourValueTc(tc_mired=mirek, address=dest))
             except Exception as e:
                 res.violation(f"C14/set/raised/{type(e).__name__}", f"SetDT8ColourValueTc({kind}, {mirek}) raised {type(e).__name__}: {e}", wit)
                 continue
@@ -143,7 +144,7 @@ def run_set(desc, seed, res):
             from models.tc209 import LIMIT_SELECTORS
             lname = [n for n, v in LIMIT_SELECTORS.items() if v == sel][0]
             selarg = StoreColourTemperatureTcLimitDTR2[lname] if mi % 8 < 4 else sel      # by the standard's name / by number
-            bus.run_sequence(SetDT8TcLimit(dest, selarg, mirek))
+            bus.run_sequence(SetDT8TcLimit(dest, selarg, mirek) if mi % 3 else SetDT8TcLimit(tc_mired=mirek, what_limit=selarg, address=dest))
         except Exception as e:
             res.violation(f"C14/limit/raised/{type(e).__name__}", f"SetDT8TcLimit(.., {sel}, {mirek}) raised {type(e).__name__}: {e}", wit)
             continue
@@ -240,7 +241,7 @@ def run_query(desc, seed, res):
                 res.hit("query_checked")
                 wit = {"sequence": "QueryDT8ColourValue", "selector": int(sel), "stored": v}
                 try:
-                    got = bus.run_sequence(QueryDT8ColourValue(dest, sel))
+                    got = bus.run_sequence(QueryDT8ColourValue(dest, sel) if vi % 3 else QueryDT8ColourValue(query=sel, address=dest))
                 except Exception as e:
                     res.violation(f"C14/query/raised/{type(e).__name__}", f"QueryDT8ColourValue({sel.name}) raised {type(e).__name__}: {e}", wit)
                     continue
